@@ -818,8 +818,8 @@ func Prop() *core.Prop {
 		Run:        runCase,
 		Exhaustive: func(string) bool { return true },
 		Require: []string{"golden_ok", "golden_within_bounds", "fault_runs:eof", "fault_runs:wrbreak", "fault_runs:rdfail", "fault_runs:wrfail",
-			"fault_runs:cancel-silent", "fault_runs:cancel-live", "fault_runs:cancel-blocked", "fault_runs:wrlost", "write_lost_but_peer_answered_anyway", "write_lost:last_write_of_handshake", "refusal_shapes_failed_closed", "cancellations_issued", "cancellations_that_reached_the_deadlines",
-			"step_errors_logged", "step_errors_logged:negotiate", "step_errors_logged:list", "step_errors_logged:parse", "failed_steps_with_mask", "peer_gave_up", "failed_closed"},
+			"fault_runs:cancel-silent", "fault_runs:cancel-live", "fault_runs:cancel-blocked", "fault_runs:wrlost", "write_lost:last_write_of_handshake", "refusal_shapes_failed_closed", "cancellations_issued", "cancellations_that_reached_the_deadlines",
+			"step_errors_logged", "step_errors_logged:negotiate", "step_errors_logged:list", "step_errors_logged:parse", "failed_steps_with_mask", "failed_closed"},
 		Witnesses: map[string]func(*core.Case){
 			"swallow:voluntary:negotiate":       witness("volfail-init", "golden", 0),
 			"outlive:cancel:before-op":          witness("plain-init", "cancel-silent", 1),
